@@ -43,7 +43,7 @@ func transportWrites(fn *ssa.Function) []*ssa.Call {
 
 func runC15(c *Ctx) {
 	P, R := c.P, c.R
-	R.Require("C15.lock", 7)
+	R.Require("C15.lock", 9)
 	R.Require("C15.atomic", 4)
 	R.Require("C15.latch", 4)
 	R.Require("C15.own", 4)
@@ -175,6 +175,44 @@ func runC15(c *Ctx) {
 		R.Check(good, "C15.atomic", "websocket|(*Conn).WriteControl|one-transport-write", P.Pos(wc.Pos()),
 			"a control frame is written with at most one transport write",
 			"WriteControl hands a control frame to the transport in more than one write", nil)
+	}
+
+	// a deferred release must only run on paths that hold the lock
+	for _, fn := range fns {
+		var defers []*ssa.Defer
+		core.EachInstr(fn, func(in ssa.Instruction) {
+			d, ok := in.(*ssa.Defer)
+			if !ok {
+				return
+			}
+			rel := false
+			if cl, ok := d.Call.Value.(*ssa.MakeClosure); ok {
+				core.EachInstr(cl.Fn.(*ssa.Function), func(x ssa.Instruction) {
+					if snd, ok := x.(*ssa.Send); ok && core.TypedPath(snd.Chan) == mu {
+						rel = true
+					}
+				})
+			}
+			if rel {
+				defers = append(defers, d)
+			}
+		})
+		if len(defers) == 0 {
+			continue
+		}
+		li := P.LockAnalysis(fn, P.EntryLocks(fn))
+		for i, d := range defers {
+			bad := ""
+			reach := instrReach(d, nil)
+			for _, r := range core.Returns(fn) {
+				if reach[r] && !li.HeldAt(r)[mu] {
+					bad = P.InstrPos(r)
+				}
+			}
+			R.Check(bad == "", "C15.lock", fmt.Sprintf("websocket|%s|deferred-release-held#%d", core.FuncName(fn), i+1), P.InstrPos(d),
+				"the deferred release of the write mutex runs only on paths that acquired it",
+				"the deferred release of the write mutex also runs on a path that never acquired it (return at "+bad+"): a spurious token lets a second writer into an ongoing frame", nil)
+		}
 	}
 
 	// ---- C15.latch
